@@ -63,13 +63,15 @@ Definition c07_check (c : c07_case) : bool :=
       let '(ts, n) := flatten b in
       list_eqb ltag_eqb ts tags && Bool.eqb n bottom_nil && sound b
   | H1Case m bsz lim slack s cmp o =>
-      (* the real reader sees between [limit] and [limit + slack] bytes per head; the call is
+      (* the first head sees exactly [limit] bytes; a head behind an informational response sees
+         between [limit] and [limit + slack] bytes (what was already buffered); the call is
          monotone in that number (H1LimitsProofs.call_monotone), so the observation must
          agree with one of the two ends *)
       (* a budget beyond the end of the stream is the same as the stream's length (firstn) *)
       let len := N.of_nat (length s) in
-      xmatch (run_exchange m (N.to_nat bsz) (N.to_nat (N.min lim len)) s) cmp o ||
-      xmatch (run_exchange m (N.to_nat bsz) (N.to_nat (N.min (lim + slack) len)) s) cmp o
+      let v1 := N.to_nat (N.min lim len) in
+      xmatch (run_exchange2 m (N.to_nat bsz) v1 v1 s) cmp o ||
+      xmatch (run_exchange2 m (N.to_nat bsz) v1 (N.to_nat (N.min (lim + slack) len)) s) cmp o
   | AltSvcCase v es e =>
       let '(es', e') := parse_header v in
       list_eqb entry_eqb es' es && perr_eqb e' e
